@@ -1,5 +1,9 @@
 use crate::engine::Runner;
 
+pub mod alloc_sm;
+pub mod c12;
+pub mod c13;
+pub mod c14;
 pub mod c15;
 pub mod c16;
 pub mod c17;
@@ -15,6 +19,9 @@ pub type CheckFn = fn(&mut Runner);
 
 pub fn registry() -> Vec<(&'static str, CheckFn)> {
     vec![
+        ("C12", c12::run as CheckFn),
+        ("C13", c13::run as CheckFn),
+        ("C14", c14::run as CheckFn),
         ("C15", c15::run as CheckFn),
         ("C16", c16::run as CheckFn),
         ("C17", c17::run as CheckFn),
